@@ -74,6 +74,7 @@ class Interp:
         self.param_iv = param_iv or {}       # local index -> (lo, hi)
         self.summaries = summaries or {}     # callee id -> {path tuple: (lo, hi, prov)}
         self.profile = profile
+        self.loop_heads = {L["head"] for L in body.loops()}
         self.syms = {}                       # id -> Sym (static info: prov/defn/ty); intervals live in State.iv
         self.next_id = 0
         self.join_syms = {}                  # (block, cellkey) -> sym id   (stable fresh symbols at joins)
@@ -1551,7 +1552,9 @@ class Interp:
             return new.copy(), True
         changed = False
         out = State()
-        widen = self.visits.get(b, 0) > 3
+        # widening only at loop heads (every cycle of a reducible CFG passes one): elsewhere a plain join keeps the
+        # refinement established by the branch condition on the incoming edge (`while n > 0 { .. n -= 1 }`)
+        widen = self.visits.get(b, 0) > 3 and (b in self.loop_heads or self.visits.get(b, 0) > 40)
         for k, sn in new.cells.items():
             if k not in old.cells and _vacuous(old, k):
                 out.cells[k] = sn
